@@ -46,7 +46,8 @@ PROPS = {
                                          [H(f'c01_polyn_pm1_{n}', 'poly', f'length {n}; integer-valued coefficients in [-100,100]; x in {{0, 1, -1}}', False, PN) for n in (5, 6, 7)]}],
                  'thorough': [{'set': 'c01', 'jobs': 8, 'timeout': 9000, 'extra': ['--solver', 'kissat'],
                                'harnesses': [H(f'c01_polyn_{n}', 'poly', f'length {n}; integer-valued coefficients in [-100,100]; x in {{0, 1, -1, 2}}', False, PN) for n in (0, 1, 2, 3, 4, 5, 6, 7, 8)] +
-                                            [H(f'c01_polyn_pm1_{n}', 'poly', f'length {n}; integer-valued coefficients in [-100,100]; x in {{0, 1, -1}}', False, PN) for n in (9, 10, 11, 12)]}]},
+                                            [H(f'c01_polyn_pm1_{n}', 'poly', f'length {n}; integer-valued coefficients in [-100,100]; x in {{0, 1, -1}}', False, PN) for n in (9, 10, 11, 12)] +
+                                            [H(f'c01_polyn_impulse_{n}', 'poly', f'length {n}; one integer-valued coefficient at a symbolic position, the others zero; x in {{1, -1}}', False, PN) for n in (24, 40)]}]},
         'probe': True,
         'level': 'other',
         'explanation': 'Verus contracts on the real bodies of Poly0..Poly8::evaluate and Log<T>::evaluate: result == sum_i c_i x^i '
